@@ -145,6 +145,11 @@ func genC09(out, tier string, rng *rand.Rand) {
 	progs = append(progs,
 		[]Req{upn("dir/one", "1"), upn("dir/sub/two", "2"), upn("top", "3"), {Kind: "delete_bucket", B: "bkt", CP: noConds}, upn("dir/three", "4"), rdn("dir/three"), rdn("dir/one"), {Kind: "list", B: "bkt"}, upn("dir/sub/four", "5"), rdn("dir/sub/four"), {Kind: "list", B: "bkt"}},
 		[]Req{upn("dir/one", "1"), {Kind: "delete_bucket", B: "bkt", CP: noConds}, {Kind: "create_bucket", B: "bkt"}, upn("dir/one", "again"), rdn("dir/one"), {Kind: "list", B: "bkt"}, {Kind: "delete", B: "bkt", N: "dir/one", CP: noConds}, upn("dir/two", "x"), {Kind: "list", B: "bkt"}})
+	// names that exist only as directories of the file store (objects below them) are absent objects
+	progs = append(progs,
+		[]Req{upn("reports/q2", "x"), upn("reports/2023/q1", "y"), {Kind: "get_meta", B: "bkt", N: "reports"}, rdn("reports"), {Kind: "patch", B: "bkt", N: "reports", Patch: &Patch{HasMeta: true, Meta: [][2]string{{"k", "v"}}}, CP: noConds},
+			{Kind: "delete", B: "bkt", N: "reports", CP: noConds}, {Kind: "delete", B: "bkt", N: "reports/2023", CP: noConds}, rdn("reports/q2"), rdn("reports/2023/q1"), {Kind: "list", B: "bkt"},
+			{Kind: "copy", B: "bkt", N: "reports", B2: "bkt", N2: "copy-of-dir"}, {Kind: "compose", B: "bkt", N: "composed", Srcs: []Src{{Name: "reports", Cond: Raw("")}}, Up: &UpMeta{CType: "x/y"}, CP: noConds}, {Kind: "list", B: "bkt"}})
 	n = len(progs)
 	results := make([]res, 2*n)
 	parallel(2*n, func(k int) {
